@@ -70,6 +70,19 @@ pub fn run(s: &dyn Subject, ctx: &Ctx) -> Option<DeclReport> {
     if ctx.tier == Tier::Thorough && spec.has_tag("unicode_sweep") {
         dom.extend(string_unicode_sweep());
     }
+    // the value `Default::default()` hands out is an obtainable value as well
+    if ctx.only_input.is_none() && !spec.has_tag("default_seq") {
+        if let (Some(Obs::Ok(w)), Some(draw)) = (s.default(), spec.default.as_ref()) {
+            if canonical(draw) {
+                rep.executions += 1;
+                rep.guard("default_value_re_entered");
+                match s.ctor(&w) {
+                    Obs::Ok(z) if z == w => {}
+                    other => rep.violate("value-from-Default-is-not-a-constructor-fixed-point", format!("<default {}>", draw.show()), format!("{} -> {}", w.show(), other.show()), w.show(), String::new()),
+                }
+            }
+        }
+    }
     let mut rng = Rng::new(ctx.seed ^ 0xC11).derive(&spec.id);
     let chain_len = if ctx.tier == Tier::Quick { 2 } else { 4 };
     for raw in &dom {
